@@ -120,6 +120,8 @@ pub enum End {
 #[derive(Default, Debug)]
 pub struct SideObs {
     pub recv: Vec<u8>,
+    /// (simulated ns, bytes received so far) after every read
+    pub recv_log: Vec<(u64, usize)>,
     pub end: Option<End>,
     pub end_ns: u64,
     pub write_err: Option<String>,
@@ -160,6 +162,8 @@ async fn pump_reads<R: tokio::io::AsyncRead + Unpin>(mut r: R, obs: Shared<FlowO
             }
             Ok(n) => {
                 side.recv.extend_from_slice(&buf[..n]);
+                let len = side.recv.len();
+                side.recv_log.push((now_ns(), len));
                 let _ = tx.send(side.recv.len());
             }
             Err(e) => {
